@@ -7,4 +7,3 @@ import PeptVerif.Props.C18Concrete
 #print axioms Pept.C18Concrete.condense_mass_label_concrete
 #print axioms Pept.C18Concrete.modMass_close
 #print axioms Pept.C18Concrete.condense_mass_label_resolved
-#print axioms Pept.C18Concrete.condense_mass_label_plain
